@@ -309,6 +309,29 @@ func scribbleConfig(c *cors.Config, with string) {
 	scribble(c.ResponseHeaders, with)
 }
 
+// noise performs operations that, by the documentation, leave the middleware's behaviour exactly as it is: in-place writes
+// to a Config() result, a rejected Reconfigure, the no-op m.Reconfigure(m.Config()), another Config(). Every driver applies it
+// to the middlewares it builds, so that each property is also checked AFTER such operations. Panics are C17's business.
+func noise(m *cors.Middleware) {
+	defer func() { recover() }()
+	if m == nil {
+		return
+	}
+	if c := m.Config(); c != nil {
+		scribbleConfig(c, "https://evil.example")
+		for i := range c.Methods {
+			c.Methods[i] = "EVIL"
+		}
+	}
+	bad := cors.Config{Origins: []string{"https://other.example"}, MaxAgeInSeconds: -7}
+	m.Reconfigure(&bad)
+	if c := m.Config(); c != nil {
+		m.Reconfigure(c)
+		scribbleConfig(c, "x-evil")
+	}
+	m.Config()
+}
+
 func scribbleHeader(h http.Header, with string) {
 	for _, v := range h {
 		scribble(v, with)
